@@ -374,6 +374,42 @@ pub fn run_c19(tape: &[u8], cx: &Cx) -> Outcome {
             }
         }
     }
+    // bounded compilations of a few derivatives of e on the same manager first (they are expressions in
+    // their own right: Some exactly when their own derivative count fits), some of them failing
+    let nd = t.choose(4);
+    for _ in 0..nd {
+        let d = closure[t.choose(closure.len())];
+        let nd_count = match deriv_closure(&mut mgr, &prog.atoms, d, rx::CLOSURE_CAP) {
+            Some(c) => c.len(),
+            None => continue,
+        };
+        let b = match t.choose(4) {
+            0 => 1,
+            1 => 2,
+            2 => nd_count.saturating_sub(1),
+            _ => nd_count,
+        };
+        o.evals += 1;
+        match catch(|| mgr.try_compile(d, b).map(|a| a.num_states())) {
+            Ok(Some(states)) => {
+                if nd_count > b || states != nd_count {
+                    o.fail("C19/try_compile-exceeds-bound", format!("{}: for its derivative {} try_compile(., {}) returned {} states; it has {} derivatives", what, d, b, states, nd_count));
+                    return o;
+                }
+            }
+            Ok(None) => {
+                if nd_count <= b {
+                    o.fail("C19/try_compile-none-within-bound", format!("{}: for its derivative {} try_compile(., {}) = None although it has only {} derivatives", what, d, b, nd_count));
+                    return o;
+                }
+            }
+            Err(msg) => {
+                o.fail("C19/compile-panics", format!("{}: try_compile of a derivative panicked: {}", what, msg));
+                return o;
+            }
+        }
+        o.tag("derivatives-compiled-first");
+    }
     // try_compile bound
     let extra = t.u32_in(0, 2 * n as u32 + 4) as usize;
     let mut bounds: Vec<usize> = vec![0, 1, n.saturating_sub(1), n, n + 1, 2 * n, usize::MAX, extra];
